@@ -47,9 +47,29 @@ let parse ts : check =
     | "CHECK_THROWS" -> Throws (match int_tok (next c) with 0 -> ThrowsNothing | 1 -> ThrowsExpected | _ -> ThrowsOther)
     | "FAIL" | "FAIL_TEST" | "FAIL_C" | "FAIL_TEXT_C" -> Fail
     | _ -> raise (Bad ("unknown check " ^ k))
+(* operand expressions with side effects: <text> SE_CHECK_EQUAL <t> <script> <script> | SE_CHECK_EQUAL_ZERO <t> <script>
+   | SE_CHECK_COMPARE <op> <t> <script> <script>;   script = <count >= 1> value...  (value of the 1st, 2nd, ... evaluation) *)
+let script c = match counted c (fun c -> z_tok (next c)) with
+  | [] -> raise (Bad "empty script")
+  | z :: r -> { s_first = z; s_later = r }
+let xparse ts : xcheck =
+  match ts with
+  | _ :: "SE_CHECK_EQUAL" :: r -> let c = { rest = r } in
+      let t = oty_of (int_tok (next c)) in let se = script c in let sa = script c in XSe (SeEqual (t, se, sa))
+  | _ :: "SE_CHECK_EQUAL_ZERO" :: r -> let c = { rest = r } in
+      let t = oty_of (int_tok (next c)) in let sa = script c in XSe (SeZero (t, sa))
+  | _ :: "SE_CHECK_COMPARE" :: r -> let c = { rest = r } in
+      let op = relop_of (int_tok (next c)) in let t = oty_of (int_tok (next c)) in let sf = script c in let ss = script c in
+      XSe (SeCompare (op, t, sf, ss))
+  | _ -> XOld (parse ts)
 let pobs o = String.concat " " [pn o.o_failures; pn o.o_checks; pbool o.o_after]
-let run_line ts = let c = parse ts in if not (valid c) then raise (Bad "operand out of range of its type / block shorter than length") else pobs (run c)
-let spec_line ts os = let c = parse ts in
-  match os with
-  | [f; n; a] -> spec c { o_failures = n_tok f; o_checks = n_tok n; o_after = bool_tok a }
+let run_line ts = let x = xparse ts in
+  if not (x_valid x) then raise (Bad "operand out of range of its type / block shorter than length") else
+  let o = x_run x in
+  match x with XOld _ -> pobs o.xo | XSe _ -> String.concat " " [pobs o.xo; pn o.xo_ne; pn o.xo_na]
+let spec_line ts os = let x = xparse ts in
+  match x, os with
+  | XOld _, [f; n; a] -> x_spec x { xo = { o_failures = n_tok f; o_checks = n_tok n; o_after = bool_tok a }; xo_ne = N0; xo_na = N0 }
+  | XSe _, [f; n; a; ne; na] ->
+      x_spec x { xo = { o_failures = n_tok f; o_checks = n_tok n; o_after = bool_tok a }; xo_ne = n_tok ne; xo_na = n_tok na }
   | _ -> false
